@@ -62,7 +62,7 @@ func mkBoolConst(b bool) *Term {
 	return tFalse
 }
 
-func (t *Term) isConst() bool { return t.Op == "const" || t.Op == "true" || t.Op == "false" }
+func (t *Term) isConst() bool  { return t.Op == "const" || t.Op == "true" || t.Op == "false" }
 func (t *Term) String() string { return t.s }
 
 func build(op string, w int, args ...*Term) *Term {
